@@ -144,8 +144,7 @@ Section WithMap.
   Variable m : mapping.
   Hypothesis Hm : map_ok m = true.
 
-  Definition cname (n : str) : str := match lookup m n with Some x => x | None => n end.
-  Lemma idn_cname n : name_ok n = true -> idn (cname n).
+  Lemma idn_cname n : name_ok n = true -> idn (cname m n).
   Proof.
     intros Hn. unfold cname. destruct (lookup m n) as [x|] eqn:E; [|apply idn_name; exact Hn].
     destruct (lookup_target m Hm _ _ E) as [->|[->| ->]]; split; reflexivity.
@@ -190,7 +189,7 @@ Section WithMap.
       destruct Hn as [Hl Hg]. cbn [nf]. split; [rewrite app_length; lia|]. apply nfp_list_Forall. apply Forall_app. split; [apply nfp_list_Forall; exact Hg|].
       constructor; [exact Hnull|constructor].
     - apply IH; exact Hd.
-    - split; [|reflexivity]. cbn [nf]. split; [apply idn_cname; exact Hd|exact I].
+    - rewrite custom_ty_prim by exact Hm. split; [|reflexivity]. cbn [nf]. split; [apply idn_cname; exact Hd|exact I].
   Qed.
 
   (* ---- no equals sign in rendered text ---- *)
@@ -250,7 +249,7 @@ Section WithMap.
       eexists; eexists; split; [reflexivity|right; reflexivity].
     - destruct (IH Hd) as [c [s [E H]]]. rewrite E. exists c, (s ++ L " | null"). tauto.
     - apply IH; exact Hd.
-    - destruct (idn_cname n Hd) as [Hi _]. fold (cname n). destruct (cname n) as [|c s]; [discriminate|]. cbn in Hi. apply andb_true_iff in Hi. exists c, s. tauto.
+    - destruct (idn_cname n Hd) as [Hi _]. fold (cname m n). destruct (cname m n) as [|c s]; [discriminate|]. cbn in Hi. apply andb_true_iff in Hi. exists c, s. tauto.
   Qed.
 
   Lemma LX_plain : forall t, dom t = true -> LX (plain m t) (pr (ts_ty_of m t)).
@@ -339,7 +338,7 @@ Section WithMap.
       change ("n" :: "u" :: "l" :: "l" :: r) with (L "null" ++ r). rewrite lex_ident; [|reflexivity|apply okf_bnd; exact Hr].
       exists f2. split; [lia|]. rewrite <- app_assoc. reflexivity.
     - cbn [plain ts_ty_of]. apply IH; exact Hd.
-    - cbn [plain ts_ty_of]. fold (cname n). apply LX_ident. apply idn_cname; exact Hd.
+    - cbn [plain ts_ty_of]. rewrite custom_ty_prim by exact Hm. fold (cname m n). apply LX_ident. apply idn_cname; exact Hd.
   Qed.
 
   Lemma has_err_pr : forall t, has_err (pr t) = false.
